@@ -116,6 +116,7 @@ def derived_check(draw, phys, cells, allow_ignore_na_false=True):
         elif k == "str_length":
             lens = [len(v) for v in vals] or [0, 2]
             near = [min(lens) - 1, min(lens), min(lens) + 1, max(lens) - 1, max(lens), max(lens) + 1]
+            near = near + [0, 0, 1]  # the smallest bounds are where `x or default` style shortcuts go wrong
             a = draw(st.one_of(st.none(), st.sampled_from(near)))
             b = draw(st.one_of(st.none(), st.sampled_from(near)))
             if a is None and b is None:
@@ -562,7 +563,7 @@ def parser_case(draw, **kw):
         if len(opts) >= nops:
             break
         op = draw(st.sampled_from(["coerce", "coerce", "coerce-bad", "default", "add_missing", "filter", "drop", "index-coerce",
-                                   "schema-coerce"]))
+                                   "schema-coerce", "parser", "parser"]))
         if op in ("coerce", "coerce-bad", "schema-coerce") and plain:
             c = draw(st.sampled_from(plain))
             if c.get("dtype") in (None, "object") or c["name"] in touched:
@@ -579,6 +580,24 @@ def parser_case(draw, **kw):
                 spec["coerce"] = True
             else:
                 c["coerce"] = True
+            opts.append(op)
+        elif op == "parser" and plain:
+            # a user parser (abs, pure or writing in place; column- or frame-level) and cells it repairs: some of the
+            # conforming non-negative cells are negated, so validation passes only on the parsed data
+            cands = [c for c in plain if c["name"] not in touched and tcs[c["name"]]["phys"] in ("int64", "float64")
+                     and all(v is None or v >= 0 for v in tcs[c["name"]]["cells"])]
+            if not cands:
+                continue
+            c = draw(st.sampled_from(cands))
+            touched.add(c["name"])
+            tc = tcs[c["name"]]
+            tc["cells"] = [v if v is None or not draw(st.booleans()) else -v for v in tc["cells"]]
+            level = draw(st.sampled_from(["column", "column", "frame"])) if kind == "dataframe" else "column"
+            variant = draw(st.sampled_from(["", "_inplace"]))
+            if level == "column":
+                c["parsers"] = [{"kind": "abs" + variant}]
+            else:
+                spec["parsers"] = list(spec.get("parsers") or []) + [{"kind": "frame_abs" + variant, "column": c["name"]}]
             opts.append(op)
         elif op == "default" and plain:
             c = draw(st.sampled_from(plain))
@@ -643,7 +662,7 @@ def parser_case(draw, **kw):
                         ixt["phys"], ixt["cells"] = "int64", [int(v) for v in ixt["cells"]]
                 ixs["coerce"] = True
                 opts.append(op)
-    case = {"spec": spec, "table": table, "parser_ops": opts,
+    case = {"spec": spec, "table": table, "parser_ops": opts, "touched": sorted(touched),
             "lazy": draw(st.booleans()) or bool(spec.get("drop_invalid_rows")),
             "inplace": draw(st.integers(0, 4)) == 0}
     return case
